@@ -544,6 +544,28 @@ func genPermSymmetric(rng *vkit.Rng) (q quad, tie bool) {
 }
 
 // move one endpoint of b next to the crossing point (k ulps)
+// four points on the great circle of the plane x+y+z=0 (hexagon directions, coordinates +-sqrt(1/2)
+// and 0, so the unperturbed points are EXACTLY coplanar), b's endpoints pushed off the plane by
+// +k1*delta and -k2*delta in their zero coordinate: the edges cross at an angle of about delta and the
+// exact path has to cancel terms that are more than 1000 binary digits apart (delta down to 2^-1074)
+func genPlaneMixed(i int, k1, k2, delta float64) quad {
+	s := math.Sqrt(0.5)
+	h := [6][3]float64{{1, -1, 0}, {1, 0, -1}, {0, 1, -1}, {-1, 1, 0}, {-1, 0, 1}, {0, -1, 1}}
+	mk := func(j int, off float64) s2.Point {
+		v := h[((j%6)+6)%6]
+		var w [3]float64
+		for t := 0; t < 3; t++ {
+			if v[t] == 0 {
+				w[t] = off
+			} else {
+				w[t] = v[t] * s
+			}
+		}
+		return P(w[0], w[1], w[2])
+	}
+	return quad{mk(i+1, 0), mk(i+3, 0), mk(i, k1*delta), mk(i+2, -k2*delta)}
+}
+
 func nearEndpoint(rng *vkit.Rng, q quad) quad {
 	x := s2.Intersection(q[0], q[1], q[2], q[3])
 	k := func() int { return rng.Intn(9) - 4 }
@@ -599,6 +621,17 @@ func run(c *vkit.Collector, rng *vkit.Rng, budget int) {
 		P(hx("0x1.95909c3e859d8p-01"), hx("-0x1.f2a76374bc30ep-02"), hx("-0x1.78d0655bf9001p-02")),
 		P(hx("-0x1.95909c3e85a31p-01"), hx("0x1.f2a76374bc336p-02"), hx("0x1.78d0655bf8e4cp-02"))})
 
+	// exactly coplanar hexagon points with denormal-scale offsets: mixed exponents in the exact path
+	for i := 0; i < 6; i++ {
+		for _, d := range []float64{0x1p-1074, 1e-310, 1e-300, 0x1p-980, 1e-250, 1e-200, 1e-160} {
+			for _, k := range [][2]float64{{2, 1}, {3, 2}, {3, 1}} {
+				emit("plane-mixed-exponent", genPlaneMixed(i, k[0], k[1], d))
+				if i%2 == 0 {
+					emit("plane-mixed-exponent", genPlaneMixed(i, -k[0], -k[1], d))
+				}
+			}
+		}
+	}
 	thetas := []float64{math.Pi / 2, 1, 0.1, 1e-2, 1e-3, 1e-4, 1e-5, 1e-6, 1e-7, 1e-8, 1e-9, 1e-10, 1e-11, 1e-12, 1e-13, 1e-14, 3e-15, 1e-15}
 	n := 5 * budget
 	for _, th := range thetas {
